@@ -10,6 +10,12 @@
 #   S4  publicKeyToken / publisherIdentity written into the manifest are those of the signing key
 #   S5  the canonical form of the documents relic builds equals the canonicalisation its CanonicalizationMethod URI names
 #   P1  EcdsaSignature.Pack of real signatures has the fixed width; P2 Unpack(Pack) round-trips and verifies
+#   R1  histories (documents that already carry Signature children: stale, foreign, prefixed, nested, made by relic once or
+#       twice; ClickOnce manifests signed again and again): what xmldsig.Sign / appmanifest.Sign return verifies
+#   R2  the DigestValue they record is the digest of what the declared transforms define: the emitted document with the new
+#       Signature taken out (enveloped-signature), in exclusive canonical form — harness canonicaliser AND the JDK one
+#   R3  signing again with the same identity does not move the DigestValue; exactly one Signature child at the signing
+#       parent; everything else, Signature elements elsewhere included, is left as it was
 # Model side: real output == faithful model (correspondence), model exc_c14n == JDK (the spec transcription is right),
 # top-down form == faithful model, generated documents == the Coq builders, proofs.
 import base64, hashlib, json, os
@@ -34,6 +40,7 @@ PROVISIONAL = {
     "C19:sign:carriage-return-written-literally": "the signed document is written with etree's default settings, which emit U+000D literally; every XML parser (Go's too) reads it back as U+000A, so a manifest whose signed content contains &#13; yields a signature that nobody, relic included, can verify",
     "C19:verify:attr-value-with-cdata-end-rejected": "Verify parses the canonical bytes of the Signature element with encoding/xml, which refuses the sequence ]]> although canonical XML leaves > unescaped in attribute values: a signature whose Signature subtree holds such an attribute value (e.g. an Object/Reference URI) is rejected, also by the relic that made it",
     "C19:sign:attr-whitespace-written-literally": "signed documents are written with etree's default settings, which emit tab and newline literally inside attribute values; a conforming parser reads them as spaces, so the DigestValue relic computed (over &#x9; / &#xA;) is not the digest of the declared canonical form of the document relic emitted",
+    "C19:sign:pi-outside-document-element-not-digested": "an enveloped signature declares Reference URI=\"\" (the whole document, comments excepted) but Sign digests the document element only: a processing instruction before or after the document element is kept in the emitted file, a conforming verifier (JDK XML-DSig) includes it in the canonical form and rejects the signature relic accepts",
     "C19:verify:pi-insertion-accepted": "a processing instruction inserted into signed content does not invalidate the signature",
     "C19:sigvalue:ecdsa-short:p521": "ECDSA SignatureValue shorter than 132 bytes for P-521 (Pack sizes r||s by max bit length)",
     "C19:sigvalue:ecdsa-short:p384": "ECDSA SignatureValue shorter than 96 bytes for P-384",
@@ -58,7 +65,8 @@ class Jdk:
         self.dir = os.path.join(ctx.scratch, "jref")
         os.makedirs(self.dir, exist_ok=True)
         rc, out, err, dt = sh(["javac", "-d", self.dir, os.path.join(VERIF, "harness", "ref", "C14n.java"),
-                               os.path.join(VERIF, "harness", "ref", "XmlSigVerify.java")], timeout=120)
+                               os.path.join(VERIF, "harness", "ref", "XmlSigVerify.java"),
+                               os.path.join(VERIF, "harness", "ref", "XmlEnvVerify.java")], timeout=120)
         self.ok = rc == 0
         self.err = err[-400:]
 
@@ -128,6 +136,263 @@ def sn_token_rsa(n_hex, e):
             + b"RSA1" + le32(8 * len(mod)) + le32(e) + mod)                       # RSAPUBKEY + modulus (little endian)
     return hashlib.sha1(blob).digest()[-8:][::-1].hex()
 
+def _norm_tree(t):
+    """etree dump / model value -> nested tuples; adjacent text children merged, empty text dropped (what a
+    serialise / parse round trip does)"""
+    k = int(t[0])
+    if k == 0:
+        kids = []
+        for c in t[4]:
+            n = _norm_tree(c)
+            if n[0] == 1:
+                if n[1] == "":
+                    continue
+                if kids and kids[-1][0] == 1:
+                    kids[-1] = (1, kids[-1][1] + n[1])
+                    continue
+            kids.append(n)
+        return (0, str(t[1]).lower(), str(t[2]).lower(), tuple((str(a[0]).lower(), str(a[1]).lower(), str(a[2]).lower()) for a in t[3]), tuple(kids))
+    if k == 3:
+        return (3, str(t[1]).lower(), str(t[2]).lower())
+    return (k, str(t[1]).lower())
+
+
+def _pi_outside_root(doc):
+    """is there a processing instruction (not the XML declaration) before or after the document element?"""
+    import re
+    txt = re.sub(rb"<!--.*?-->", b"", doc, flags=re.S)
+    m = re.search(rb"<[A-Za-z_\x80-\xff]", txt)
+    if not m:
+        return False
+    head = txt[:m.start()]
+    end = txt.rfind(b">")
+    # the document element ends at the last '>' that is not the end of a trailing PI / comment
+    tail = b""
+    k = len(txt)
+    while True:
+        t = txt[:k].rstrip()
+        if t.endswith(b"?>"):
+            j = t.rfind(b"<?")
+            tail += t[j:]
+            k = j
+            continue
+        break
+    pis = [p for p in re.findall(rb"<\?([^\s?]+)", head + tail) if p.lower() != b"xml"]
+    return bool(pis)
+
+
+def _b64_digest(hash_name, octets_hex):
+    return base64.b64encode(hashlib.new(hash_name, bytes.fromhex(octets_hex)).digest()).decode()
+
+
+def resign_checks(ctx, st, rsc, ref, jdk, finding):
+    """R1..R3 (model-free, on what the real code did) and the comparison with the extracted pipeline model"""
+    hxs = lambda t: Hex((t or "").encode().hex())
+    stats = {"cases": len(rsc), "xmldsig": 0, "manifest": 0, "with_existing_signature": 0, "resigned": 0, "refusals": 0,
+             "digest_checked_harness_c14n": 0, "digest_checked_jdk_c14n": 0, "license_digests_checked": 0, "model_compared": 0,
+             "scenarios": sorted(set(c["scenario"] for c in rsc)), "keys": sorted(set(c["key"] for c in rsc)), "hashes": sorted(set(c["hash"] for c in rsc))}
+    big = ("in_root", "out_root", "reparsed", "children", "frames", "ctx0", "parent", "kv_nodes", "x509_nodes", "kv_nodes2", "x509_nodes2", "cert", "c14n", "c14n2")
+    for c in rsc:
+        light = dict((k, v) for k, v in c.items() if k not in big)
+        obj = {"resign": [c]}
+        stats[c["level"]] += 1
+        stats["with_existing_signature"] += c.get("nsig_input", 0) > 0
+        stats["resigned"] += c.get("round", 1) > 1
+        what = "%s %s round %d (%s, %s)" % (c["level"], c["scenario"], c.get("round", 1), c["key"], c["hash"])
+        if c["expect"] == "signerr":
+            stats["refusals"] += 1
+            if not c.get("sign_err"):
+                ctx.violation("C19:resign:unsupported-request-signed", "Sign accepted %s" % what, obj, True)
+            continue
+        if c.get("sign_err"):
+            ctx.violation("C19:resign:sign-error", "signing failed on %s: %s" % (what, c["sign_err"]), obj, True)
+            continue
+        if c.get("reader_err"):
+            ctx.violation("C19:resign:output-unreadable", "the independent reader cannot read %s: %s" % (what, c["reader_err"]), obj, True)
+            continue
+        if c["expect"] == "multiple":
+            if c.get("verify_ok") or "multiple signatures" not in (c.get("verify_err") or ""):
+                ctx.notes.append("sigpath matching two routes: Verify answered %r" % (c.get("verify_err") or "ok"))
+        else:
+            # R1
+            if not c.get("verify_ok"):
+                ctx.violation("C19:resign:verify-rejected", "relic rejects what it has just signed — %s, input carried %d Signature child(ren) at the signing parent: %s" %
+                              (what, c.get("nsig_input", 0), c.get("verify_err")), obj, True)
+            elif c["level"] == "xmldsig" and not c.get("verify_mem_ok"):
+                ctx.violation("C19:resign:verify-rejected", "relic rejects the tree Sign left in memory — %s" % what, obj, True)
+        # R2: the declared transforms, harness canonicaliser and JDK canonicaliser
+        dv = c.get("digest_value")
+        jd = ref.get("rs%d" % c["id"])
+        own = c.get("want_digest")
+        stats["digest_checked_harness_c14n"] += 1
+        if jd is not None:
+            stats["digest_checked_jdk_c14n"] += 1
+            if jd != c.get("want_canon"):
+                ctx.violation("C19:harness:own-canonicaliser-differs-from-reference", "harness exc-c14n differs from the JDK canonicaliser on %s" % what,
+                              {"resign": [light], "jdk": jd}, False)
+        rel = c.get("c14n") if c.get("c14n") and not c["c14n"].get("err") else None      # relic's own canonical form of that content
+        rel_digest = _b64_digest(c["hash"], rel["out"]) if rel else None
+        if dv != own and (jd is None or _b64_digest(c["hash"], jd) == own):
+            if rel is not None and dv == rel_digest and rel["out"].lower() != (c.get("want_canon") or "").lower():
+                # the digest IS that of the declared node-set, in relic's canonical form; where that form departs from exc-c14n is
+                # judged (and keyed) by the O1 oracle on case rs<id>.c
+                stats["digest_over_diverging_canonical_form"] = stats.get("digest_over_diverging_canonical_form", 0) + 1
+            else:
+                ctx.violation("C19:resign:digest-not-of-declared-transforms",
+                              "DigestValue %s is not the digest %s of the exclusive canonical form of the emitted document with the new Signature taken out "
+                              "(enveloped-signature transform) — %s, input carried %d Signature child(ren) at the signing parent" % (dv, own, what, c.get("nsig_input", 0)), obj, True)
+        if c["level"] == "manifest":
+            stats["license_digests_checked"] += 1
+            jl = ref.get("rs%d.lic" % c["id"])
+            rel2 = c.get("c14n2") if c.get("c14n2") and not c["c14n2"].get("err") else None
+            if c.get("digest_value2") != c.get("want_digest2") and (jl is None or _b64_digest(c["hash"], jl) == c.get("want_digest2")):
+                if rel2 is not None and c.get("digest_value2") == _b64_digest(c["hash"], rel2["out"]):
+                    stats["digest_over_diverging_canonical_form"] = stats.get("digest_over_diverging_canonical_form", 0) + 1
+                else:
+                    ctx.violation("C19:resign:license-digest-not-of-declared-transforms", "Authenticode licence: DigestValue %s, digest of the declared canonical form %s — %s" %
+                                  (c.get("digest_value2"), c.get("want_digest2"), what), obj, True)
+            try:
+                rev = base64.b64decode(dv or "")[::-1].hex()
+            except Exception:
+                rev = None
+            if (c.get("mhash") or "").lower() != rev:
+                ctx.violation("C19:resign:manifest-hash", "ManifestInformation/@Hash %s is not the reversed primary digest %s — %s" % (c.get("mhash"), rev, what), obj, True)
+        # R3
+        if c.get("same_identity") and c.get("prev_digest") and dv != c["prev_digest"]:
+            ctx.violation("C19:resign:digest-moved-by-resigning", "signing the signed document again (same content, same identity) moved the DigestValue from %s to %s — %s" %
+                          (c["prev_digest"], dv, what), obj, True)
+        if c.get("nsig_at_parent") != 1:
+            ctx.violation("C19:resign:signature-count", "%d Signature children at the signing parent after Sign — %s" % (c.get("nsig_at_parent"), what), obj, True)
+        if not c.get("content_same"):
+            ctx.violation("C19:resign:content-changed", "Sign changed something other than Signature children of the signing parent (and the identity fields) — %s" % what, obj, True)
+        if c.get("nested_sigs") != c.get("nested_sigs_in"):
+            ctx.violation("C19:resign:nested-signature-touched", "Signature elements elsewhere in the document: %d before, %d after — %s" %
+                          (c.get("nested_sigs_in"), c.get("nested_sigs"), what), obj, True)
+    # ---- third party: the JDK XML-DSig validator applies the declared transforms to the emitted document itself
+    # (standard algorithm identifiers only: ClickOnce's SHA-2 names are Microsoft's own; SHA-1 manifests are standard)
+    tp = {"validated_ok": 0, "skipped_nonstandard_names": 0, "pi_outside_document_element": 0}
+    if jdk.ok:
+        items, meta = [], []
+        for c in rsc:
+            if c["expect"] != "ok" or not c.get("signed") or not c.get("verify_ok"):
+                continue
+            if (c["level"] == "xmldsig" and c["ms"]) or (c["level"] == "manifest" and c["hash"] != "sha1"):
+                tp["skipped_nonstandard_names"] += 1
+                continue
+            items.append("%s %s %s\n" % (c["signed"], c["cert"], "/".join(str(x) for x in c["path"]) if c.get("path") else "-"))
+            meta.append(c)
+        if items:
+            rc, out, err, dt = sh(["java", "-Xss16m", "-cp", jdk.dir, "XmlEnvVerify"], input="".join(items), timeout=600)
+            lines = out.splitlines()
+            if rc != 0 or len(lines) != len(items):
+                ctx.violation("C19:reference-run", "enveloped-signature validator failed: rc=%s lines=%d/%d %s" % (rc, len(lines), len(items), err[-300:]), {"output": err[-1000:]}, False)
+            else:
+                for c, res in zip(meta, lines):
+                    light = dict((k, v) for k, v in c.items() if k not in big)
+                    what = "%s %s round %d (%s, %s)" % (c["level"], c["scenario"], c.get("round", 1), c["key"], c["hash"])
+                    if res == "OK":
+                        tp["validated_ok"] += 1
+                        continue
+                    doc = bytes.fromhex(c["signed"])
+                    rel = c.get("c14n") if c.get("c14n") and not c["c14n"].get("err") else None
+                    if rel is not None and rel["out"].lower() != (c.get("want_canon") or "").lower() and c.get("digest_value") == _b64_digest(c["hash"], rel["out"]):
+                        # relic's canonical form of the signed content is not the exclusive canonical form: that divergence is judged and
+                        # keyed by the O1 oracle (case rs<id>.c); the validator's refusal follows from it
+                        tp["explained_by_c14n_divergence"] = tp.get("explained_by_c14n_divergence", 0) + 1
+                    elif _pi_outside_root(doc):
+                        tp["pi_outside_document_element"] += 1
+                        finding("C19:sign:pi-outside-document-element-not-digested", "the JDK validator rejects (%s) what relic signed and accepts — %s; the document has a processing instruction outside its document element" % (res[:80], what),
+                                {"resign": [light], "validator": res})
+                    else:
+                        ctx.violation("C19:resign:thirdparty-rejected", "the JDK XML-DSig validator rejects (%s) an enveloped signature relic made and accepts — %s" % (res[:160], what),
+                                      {"resign": [c], "validator": res}, True)
+    stats["third_party_validation"] = tp
+    # ---- the extracted pipeline model on the same inputs
+    if not st["model_ok"] or not rsc:
+        return stats
+
+    def params(c, second=False):
+        sfx = "2" if second else ""
+        return [c["hash_id"], c["key_kind"], c.get("ncerts", 1), 0 if c["scenario"] == "certificate-of-another-key" else 1,
+                1 if c["ms"] else 0, 1 if c["rec"] else 0, 1 if (c["include_kv"] or second) else 0, 1 if (c["include_x509"] or second) else 0,
+                tohex(c.get("kv_nodes" + sfx) or []), tohex(c.get("x509_nodes" + sfx) or []),
+                hxs(c.get("digest_value" + sfx)), hxs(c.get("sig_value" + sfx))]
+    vals, todo = [], []
+    for c in rsc:
+        if c.get("ctx0") is None or c.get("in_root") is None:
+            continue
+        if c["level"] == "xmldsig":
+            vals.append([3, [params(c), tohex(c["ctx0"]), tohex(c["frames"]), Hex(c["parent"][0]), Hex(c["parent"][1]), tohex(c["parent"][2]), tohex(c["children"])]])
+            todo.append((c, "sign"))
+            if c.get("reparsed") is not None:
+                vals.append([4, [tohex(c["reparsed"]), [hxs(x) for x in c["sigpath"].split("/")]]])
+                todo.append((c, "verify"))
+        elif c.get("token"):
+            vals.append([5, [[hxs(c["token"]), hxs(c["subject"]), hxs(c["issuer_hash"])], params(c), params(c, True), hxs(c.get("mhash")), tohex(c["in_root"])]])
+            todo.append((c, "amsign"))
+            if c.get("reparsed") is not None:
+                vals.append([6, [tohex(c["reparsed"])]])
+                todo.append((c, "amverify"))
+    try:
+        res = ctx.run_model(vals)
+    except RuntimeError as e:
+        ctx.violation("C19:model-eval", str(e)[-300:], {"output": str(e)}, False)
+        return stats
+    bad = []
+
+    def differ(c, what, detail):
+        bad.append((c, what, detail))
+
+    def vaccept(c, r, dv_field="digest_value"):
+        """the model's verdict up to the signature value: structure accepted and reference digest equal"""
+        return int(r[0]) == 0 and _b64_digest(c["hash"], str(r[3])) == bytes.fromhex(str(r[4])).decode()
+    for (c, kind), r in zip(todo, res):
+        stats["model_compared"] += 1
+        code = int(r[0])
+        if kind == "sign":
+            if bool(c.get("sign_err")) != (code != 0):
+                differ(c, "sign-outcome", "implementation error %r, model code %d" % (c.get("sign_err"), code))
+                continue
+            if code != 0:
+                continue
+            if _b64_digest(c["hash"], str(r[1])) != c.get("digest_value"):
+                differ(c, "sign-reference-octets", "the octets the model digests do not hash to the DigestValue %s" % c.get("digest_value"))
+            if c.get("out_root") is not None and _norm_tree(r[3]) != _norm_tree(c["out_root"]):
+                differ(c, "sign-output-tree", "the tree Sign leaves differs from the model's")
+            want = c["expect"] == "ok"
+            if vaccept(c, r[4]) != bool(c.get("verify_mem_ok")) and want:
+                differ(c, "verify-in-memory", "model verdict %s, implementation %s" % (vaccept(c, r[4]), c.get("verify_mem_ok")))
+        elif kind == "verify":
+            if c["expect"] == "multiple":
+                if code != 21:
+                    differ(c, "verify-multiple", "model code %d" % code)
+                continue
+            if vaccept(c, r) != bool(c.get("verify_ok")):
+                differ(c, "verify-outcome", "model verdict %s (code %d), implementation %s %r" % (vaccept(c, r), code, c.get("verify_ok"), c.get("verify_err")))
+            if code == 0 and c.get("c14n") and not c["c14n"].get("err") and str(r[3]).lower() != c["c14n"]["out"].lower():
+                differ(c, "verify-octets", "the octets the model's Verify digests are not SerializeCanonical of the document without the Signature")
+        elif kind == "amsign":
+            if code != 0:
+                differ(c, "amsign-outcome", "model code %d" % code)
+                continue
+            if _b64_digest(c["hash"], str(r[1])) != c.get("digest_value"):
+                differ(c, "amsign-reference-octets", "primary: the octets the model digests do not hash to the DigestValue %s" % c.get("digest_value"))
+            if _b64_digest(c["hash"], str(r[3])) != c.get("digest_value2"):
+                differ(c, "amsign-license-octets", "licence: the octets the model digests do not hash to the DigestValue %s" % c.get("digest_value2"))
+            if _norm_tree(r[5]) != _norm_tree(c["reparsed"]):
+                differ(c, "amsign-output-tree", "the signed manifest differs from the model's")
+        elif kind == "amverify":
+            ok = code == 0 and vaccept(c, r[1]) and vaccept(c, r[2])
+            if ok != bool(c.get("verify_ok")):
+                differ(c, "amverify-outcome", "model verdict %s (code %d), implementation %s %r" % (ok, code, c.get("verify_ok"), c.get("verify_err")))
+    if bad:
+        c, what, detail = bad[0]
+        kinds = sorted(set(b[1] for b in bad))
+        ctx.violation("C19:correspondence:pipeline", "signing / verifying pipeline model and implementation disagree on %d comparisons %s; first: %s %s round %d: %s" %
+                      (len(bad), kinds, c["level"], c["scenario"], c.get("round", 1), detail), {"resign": [c], "broken": "correspondence C19.Run.run_xsign / run_xverify / run_amsign / run_amverify"}, False)
+    stats["model_mismatches"] = len(bad)
+    return stats
+
 
 def run(ctx, replay=None):
     st = ctx.prepare(["C19_gen"], ["C19"], "C19.Run")
@@ -136,10 +401,7 @@ def run(ctx, replay=None):
     prov = {}
 
     def finding(key, detail, obj):
-        if key in PROVISIONAL and not any(k.get("key") == key and k.get("property") == "C19" for k in ctx.known):
-            if key not in prov:
-                prov[key] = {"key": key, "what": PROVISIONAL[key], "detail": detail, "input": obj}
-            return
+        # no private channel: a key that is not listed in known_findings.json fails the run
         ctx.violation(key, detail, obj, True)
 
     jdk = Jdk(ctx)
@@ -156,14 +418,19 @@ def run(ctx, replay=None):
 
     if replay:
         rp = json.load(open(replay))
-        cases, sigs, packs = rp.get("cases", []), rp.get("sigs", []), rp.get("packs", [])
+        cases, sigs, packs, rsc = rp.get("cases", []), rp.get("sigs", []), rp.get("packs", []), rp.get("resign", [])
     else:
-        cases, sigs, packs = drv("c19"), drv("c19sig"), drv("c19pack")
+        cases, sigs, packs, rsc = drv("c19"), drv("c19sig"), drv("c19pack"), drv("c19resign")
     sub = []
     for s in sigs:
         for k, c in enumerate(s.get("c14n") or []):
             c["id"] = "sig%d.%d" % (s["id"], k)
             sub.append(c)
+    for c in rsc:           # relic's canonical form of what each history's Reference selects: judged by O1 like any other case
+        for fld, sfx in (("c14n", "c"), ("c14n2", "l")):
+            if c.get(fld):
+                c[fld]["id"] = "rs%d.%s" % (c["id"], sfx)
+                sub.append(c[fld])
     allc = cases + sub
     good = [c for c in allc if not c.get("err")]
     for c in allc:
@@ -183,6 +450,8 @@ def run(ctx, replay=None):
         try:
             reqs = [(c["id"], c["doc"], c["path"], bool(c.get("inclusive"))) for c in good]
             reqs += [(g["id"], g["ref_doc"], g["ref_path"], bool(g.get("inclusive"))) for g in gens if g.get("ref_doc")]
+            reqs += [("rs%d" % c["id"], c["ref_doc"], "-", False) for c in rsc if c.get("ref_doc")]
+            reqs += [("rs%d.lic" % c["id"], c["ref_doc2"], "-", False) for c in rsc if c.get("ref_doc2")]
             for incl in (False, True):
                 part = [q for q in reqs if q[3] == incl]
                 for q, r in zip(part, jdk.c14n([(q[1], q[2]) for q in part], inclusive=incl)):
@@ -454,6 +723,9 @@ def run(ctx, replay=None):
         except RuntimeError as e:
             ctx.violation("C19:reference-run", str(e)[-300:], {"output": str(e)}, False)
 
+    # ------------------------------------------------------------ histories: signing what is already signed
+    rs_stats = resign_checks(ctx, st, rsc, ref, jdk, finding)
+
     # ------------------------------------------------------------ ECDSA Pack
     short = {}
     n_real = 0
@@ -492,16 +764,19 @@ def run(ctx, replay=None):
     for c in allc:
         k = c["kind"].split(":")[0].split("+")[0]
         kinds[k] = kinds.get(k, 0) + 1
-    cov = ctx.proof_coverage(["srcgen translator (getDecl, putDecl, sort.Slice comparator, usesSpace/pushDown/pullDown/walkAttributes conditions, child type switch, WriteSettings, Pack/Unpack arithmetic)",
+    cov = ctx.proof_coverage(["srcgen translator, pipelines: xmldsig.Sign as an instruction list (one per statement), RemoveElements loop, hashCanon, buildSignedInfo, finishSignature, hashAlgs tables and decisions, "
+                              "every condition of Verify, parseAlgs, appmanifest.Sign call order / arguments / literals",
+                              "srcgen translator (getDecl, putDecl, sort.Slice comparator, usesSpace/pushDown/pullDown/walkAttributes conditions, child type switch, WriteSettings, Pack/Unpack arithmetic)",
                               "correspondence harness drv-c19 (real etree parse + xmldsig.SerializeCanonical / Sign / Verify, appmanifest.Sign / Verify, EcdsaSignature.Pack)",
                               "JDK 17 javax.xml.crypto exclusive/inclusive canonicaliser as reference for the Coq specification exc_c14n (harness/ref/C14n.java)",
                               "etree tokeniser/writer and Go encoding/xml are third-party: covered by correspondence only"], FP)
     distinct = len(set(c["out"] for c in good if mres.get(c["id"]) and not mres[c["id"]]["codes"]))
     cov.update({
-        "evaluations": len(allc) + sum(len(s.get("variants") or []) for s in sigs) + len(packs),
+        "evaluations": len(allc) + sum(len(s.get("variants") or []) for s in sigs) + len(packs) + len(rsc),
         "distinct_nontrivial": distinct,
         "rule": "random namespace-well-formed XML trees (nesting <= 5, default/prefixed namespaces declared at any ancestor, shuffled attributes, escapable characters, CDATA, comments, PIs) "
                 "in random surface styles, root and sub-elements canonicalised; fixed witnesses per clause outside K; relic-signed manifests / enveloping signatures re-serialised and altered; "
+                "histories: documents carrying stale / foreign / prefixed / nested Signature children and relic-signed documents signed again (same and other key, RSA + P-256/384/521, SHA-1..SHA-512) through xmldsig.Sign/Verify, ClickOnce manifests through appmanifest.Sign/Verify three times over; "
                 "real ECDSA signatures on P-256/384/521 and boundary (r,s); non-trivial = distinct canonical outputs of cases inside the class K",
         "samples": [dict((k, c[k]) for k in ("kind", "doc", "path", "out")) for c in good[20:23]],
         "exhaustive": False, "input_distribution": kinds,
@@ -511,9 +786,14 @@ def run(ctx, replay=None):
         "model_mismatches": len(corr_fail), "spec_vs_reference_mismatches": len(spec_fail),
         "signatures": len(sigs), "generated_docs_compared": n_gen, "digest_values_recomputed_from_reference": n_digest, "signed_documents_with_literal_cr": n_cr, "preserving_variants": n_var, "altering_variants": n_alt, "preserving_variants_confirmed_by_reference": n_pres_checked,
         "signature_value_lengths": siglen_hist, "third_party_validation": tp,
+        "resign": rs_stats,
         "pack_real_signatures": n_real, "pack_short_by_curve": short, "pack_model_cases": pack_corr,
         "provisional_findings": [prov[k] for k in sorted(prov)]})
     return ctx.finish("proof", cov, ["valid UTF-8 input (etree replaces invalid sequences by U+FFFD; the model works on bytes)",
                                      "PreserveCData is never set by relic (CDATA sections arrive as plain character data)",
                                      "Go map iteration order in pullDown is irrelevant because the attributes are sorted afterwards under a total order (Proofs: isort_perm)",
-                                     "the ECDSA and RSA primitives are Go's; only encodings are modelled"])
+                                     "the ECDSA and RSA primitives are Go's; only encodings are modelled",
+                                     "pipelines: symbolic cryptography (hypotheses of verify_accepts_xsign / am_verify_accepts_am_sign): base64 decode(encode x) = x; the signature value the signer produces over some octets verifies under the key material it writes into KeyInfo (RSA / ECDSA correctness, Pack / Unpack, addKeyInfo / parseKey)",
+                                     "pipelines: xml.Unmarshal of the canonical Signature bytes is modelled as first-match selection of child elements by local name (relic-built signatures have one child of each kind); hashCanon / SerializeCanonical never fail on an in-memory tree",
+                                     "pipelines: the signing parent lies inside root, root has no namespace-declaring ancestors (document element or free-standing element, as in appmanifest; otherwise sign_below_namespace_context_refuted), the route from root to the parent is unambiguous (no sibling with the tag of the next step; otherwise Verify answers 'multiple signatures found')",
+                                     "pipelines: the enveloping (URI=#id) branch of Verify, the SameKey / publicKeyToken comparison of appmanifest.Verify and timestamps are covered by the harness only"])
